@@ -44,6 +44,8 @@ type Scenario struct {
 	Faults   []FaultSpec  `json:"faults"`
 	ArmStep  int          `json:"arm_step"`  // faults are armed before this step
 	HealStep int          `json:"heal_step"` // and removed before this step
+	// ReadProbe: at the end (no block cache) fail table reads and look every key up
+	ReadProbe bool `json:"read_probe"`
 }
 
 type bstat struct {
@@ -132,13 +134,21 @@ func checkContents(db *leveldb.DB, bs []*bstat, phase string, readErrOK bool) st
 			return fmt.Sprintf("%s: key %x of an applied batch is missing (a batch is partly applied or an acknowledged write is hidden)", phase, k)
 		}
 	}
-	// point reads must agree with the scan
+	return pointReads(db, exp, phase, readErrOK, 40)
+}
+
+// pointReads: every Get must return the expected value or a genuine error — "not found" for a key that is
+// there is a wrong answer, not an error.
+func pointReads(db *leveldb.DB, exp map[string][]byte, phase string, readErrOK bool, max int) string {
 	n := 0
 	for k, v := range exp {
-		if n++; n > 12 {
+		if n++; n > max {
 			break
 		}
 		g, err := db.Get([]byte(k), nil)
+		if err == leveldb.ErrNotFound {
+			return fmt.Sprintf("%s: Get(%x) says not found for a key whose batch is applied (a failed read must surface as an error, not as absence)", phase, k)
+		}
 		if err != nil {
 			if readErrOK || errors.IsCorrupted(err) {
 				continue
@@ -146,7 +156,34 @@ func checkContents(db *leveldb.DB, bs []*bstat, phase string, readErrOK bool) st
 			return fmt.Sprintf("%s: Get(%x) fails: %v", phase, k, err)
 		}
 		if !bytes.Equal(g, v) {
-			return fmt.Sprintf("%s: Get(%x) returns a wrong value", phase, k)
+			return fmt.Sprintf("%s: Get(%x) returns a wrong value (%d bytes, expected %d)", phase, k, len(g), len(v))
+		}
+		if h, err := db.Has([]byte(k), nil); err == nil && !h {
+			return fmt.Sprintf("%s: Has(%x) is false for a key whose batch is applied", phase, k)
+		}
+	}
+	return ""
+}
+
+// readFaultProbe: with the data settled in tables and no block cache, fail the k-th table read for a few k and
+// look every key up: each lookup must give the right value or an error.
+func readFaultProbe(db *leveldb.DB, stor *vstor.Stor, bs []*bstat, r *vlib.RNG) string {
+	exp := map[string][]byte{}
+	it := db.NewIterator(nil, nil)
+	for it.Next() {
+		exp[string(it.Key())] = append([]byte{}, it.Value()...)
+	}
+	err := it.Error()
+	it.Release()
+	if err != nil || len(exp) == 0 {
+		return ""
+	}
+	for t := 0; t < 6; t++ {
+		stor.AddFault(&vstor.Fault{Kind: vstor.OpRead, Type: storage.TypeTable, K: r.Intn(8), Persistent: r.Chance(1, 3)})
+		m := pointReads(db, exp, "under a table read fault", true, 1000)
+		stor.Heal()
+		if m != "" {
+			return m
 		}
 	}
 	return ""
@@ -155,12 +192,22 @@ func checkContents(db *leveldb.DB, bs []*bstat, phase string, readErrOK bool) st
 func runScenario(sc *Scenario) (out outcome) {
 	out.stats = map[string]int{}
 	stor := vstor.New(true)
+	stor.NoData = true
 	o := sc.W.Cfg.Options()
 	db, err := leveldb.Open(stor, o)
 	if err != nil {
 		out.msg = "initial Open: " + err.Error()
 		return
 	}
+	// whatever happens, stop injecting faults when the scenario ends: background retry loops spin while
+	// a persistent fault is active
+	defer stor.Heal()
+	defer func() {
+		if out.hung != "" && db != nil {
+			d := db
+			go d.Close()
+		}
+	}()
 	var faults []*vstor.Fault
 	arm := func() {
 		for _, f := range sc.Faults {
@@ -285,6 +332,13 @@ func runScenario(sc *Scenario) (out outcome) {
 		out.msg = m
 		db.Close()
 		return
+	}
+	if sc.ReadProbe {
+		if m := readFaultProbe(db, stor, bs, vlib.NewRNG(sc.W.Seed)); m != "" {
+			out.msg = m
+			db.Close()
+			return
+		}
 	}
 	_, to := call(T, func() error { return db.Close() })
 	if to {
@@ -449,6 +503,12 @@ func main() {
 			w.Cfg.MaxManifest = 0
 		}
 		sc := &Scenario{W: w}
+		if r.Chance(1, 3) {
+			sc.ReadProbe = true
+			w.Cfg.BlockCache = -1
+			w.Cfg.WriteBuffer = 1024
+			w.Cfg.BlockSize = 64
+		}
 		nf := 1
 		if a.Thorough() && r.Chance(1, 3) {
 			nf = 2
